@@ -68,7 +68,9 @@ def check(out: Outcome, cls: str, p: dict, xs: list, runners: list) -> None:
         if abs(float(r.det.sum_) - g) > 1e-9 * sc * t:
             out.violation(f"{cls}: statistic {float(r.det.sum_)!r} differs from the recurrence value {g!r} at step {t}", rep)
             break
-        if abs(g - fp["lambda_"]) <= 1e-9 * max(1.0, abs(g), sc):
+        # near-tie with the threshold: RELATIVE to the quantities compared and to the scale of the data the statistic is built from (no floor at 1: on a stream of
+        # magnitude 1e-10 with a threshold of that order, differences of 1e-10 are not ties)
+        if abs(g - fp["lambda_"]) <= 1e-9 * max(abs(fp["lambda_"]), abs(g), sc):
             out.count("near_threshold_steps_skipped")
             continue
         fired = fired or drift
@@ -131,6 +133,13 @@ def run(out: Outcome) -> None:
             xs = gen.real_stream(rng, rng.randint(5, 400 if thorough else 150))
             if rng.random() < 0.3:
                 xs = [float(v) for v in gen.bernoulli_stream(rng, len(xs))]
+            if rng.random() < 0.3:
+                # the whole problem at another magnitude (durations in seconds, currents in A, counts of bytes): values, delta and lambda_ scaled together
+                f = rng.choice([2.0 ** -40, 1e-10, 3e-13, 2.0 ** 33, 7e9, 1e-6])
+                xs = [v * f for v in xs]
+                fp0 = dets.full_params(cls, p)
+                p = {**p, "lambda_": fp0["lambda_"] * f, **({"delta": fp0["delta"] * f} if "delta" in fp0 and f < 1 else {})}      # delta is confined to [0, 1]
+                out.count("rescaled_problems")
             ys = list(xs)
             if rng.random() < 0.4:
                 for _ in range(rng.randint(1, 2)):
